@@ -3,7 +3,7 @@ import Octo.Lemmas.SqlTbl
 # Round trip of select statements, and the induction over the nesting depth (C30)
 -/
 set_option linter.unusedSimpArgs false
-namespace Octo.Sql
+namespace Octo.SqlSyn
 
 /-- the next token starts one of the clauses `ks`, closes a parenthesis, or the input ends -/
 def startsIn (ks : List Kw) : List Tok → Bool
@@ -482,4 +482,4 @@ theorem roundtrip_fuel (s : Sel) (hok : okS s = true) (hs : s.isStmt = true) (n 
   simp at h
   simp [parseStmtFuel, h]
 
-end Octo.Sql
+end Octo.SqlSyn
